@@ -435,12 +435,14 @@ Fixpoint flat_stmt (n : node) (s : fstate) {struct n} : option fstate :=
 Definition labels_set (r : routine) : bool := forallb (fun e => 0 <=? snd e) (r_labels r).
 
 Definition root_name : str := [35; 114; 111; 111; 116]%N.
-Definition root_ctx_name : str := [35; 114; 111; 111; 116; 95; 102; 105; 108; 101; 95; 99; 111; 110; 116; 101; 120; 116]%N.
+(* before the first token the text is on no line: the placeholder position ("-", -1), which no token has *)
+Definition root_ctx_name : str := [45]%N.
+Definition root_ctx_line : Z := -1.
 
 (* the routine table of a parsed source: the definitions in order, then the main program.
    None: the tree is not a well-formed program (unknown callee, malformed node). *)
 Definition abstract_source (root : option node) : option (list routine) :=
-  let s0 := mkF [] [] (mkB root_name [] [] [] [] []) (root_ctx_name, 0) 0 in
+  let s0 := mkF [] [] (mkB root_name [] [] [] [] []) (root_ctx_name, root_ctx_line) 0 in
   match (match root with None => Some s0 | Some n => flat_stmt n s0 end) with
   | None => None
   | Some s =>
